@@ -173,9 +173,14 @@ def conv_mtf(which):
         def tf_rt(fr, ft):
             seen['fr'], seen['ft'] = np.asarray(fr), np.asarray(ft)
             return np.ones((m, n))
-        cv.apply_transfer_functions(o, dx, [tf_xy, tf_rt], shift=True)
         fx = (np.arange(n) - n // 2) / (n * dx)
         fy = (np.arange(m) - m // 2) / (m * dx)
+        # the frequency grids may be left to the routine, or given as 1-D axes, or as the documented (M, N) arrays
+        how = ['default', 'axes-1d', 'grids-2d'][int(rng.integers(0, 3))]
+        kw = {} if how == 'default' else (dict(fx=fx, fy=fy) if how == 'axes-1d' else dict(zip(('fx', 'fy'), np.meshgrid(fx, fy))))
+        out = cv.apply_transfer_functions(o, dx, [tf_xy, tf_rt], shift=True, **kw)
+        check('callable-grids-broadcast-to-the-image', all(np.broadcast_shapes(np.shape(seen[k]), (m, n)) == (m, n) for k in ('fx', 'fy', 'fr', 'ft')))
+        check('all-ones-callables-are-identity', bool(np.allclose(out, o, rtol=1e-9, atol=1e-9)))
         check('fx-is-axis-1-frequencies', bool(np.allclose(np.broadcast_to(seen['fx'], (m, n)), np.broadcast_to(fx[None, :], (m, n)))))
         check('fy-is-axis-0-frequencies', bool(np.allclose(np.broadcast_to(seen['fy'], (m, n)), np.broadcast_to(fy[:, None], (m, n)))))
         check('fr-is-hypot', bool(np.allclose(np.broadcast_to(seen['fr'], (m, n)), np.hypot(fx[None, :], fy[:, None]))))
